@@ -26,6 +26,12 @@ for f in sorted(glob.glob(V + "/.build/seedm*.out") + glob.glob(V + "/.build/see
             if m:
                 cur["violations"].append(m.group(2))
 MISS_NOTES = {
+ "C02-C": "first run: exit 2, not a violation: the change makes the division loop run past the harness's unwind bound, which the driver then reported as 'unwind bound too small' -> the driver now replays such traces natively (violation iff the native run fails) and c02_q_divbig_* were added",
+ "C02-D": "caught on its first full run, but only because c02_q_divq2ops_f8x1_f16x1 (the / and % operator forms on one-word vectors of different word types) had been added minutes before while preparing for this batch; the quick tier as committed before would have missed it (div8 x Bvf<u16,1> is thorough-only)",
+ "C10-C": "the change breaks Bvf::resize (stale word after shrinking to a word boundary), which then makes Hash disagree with Eq; C10's harnesses start from Inv states and never resize, so C10 itself exits 0 - it is caught by C07 (and C03), which own that behaviour",
+ "C10-D": "the change drops the final mask of Bvf |=, ^= with a heap operand; C10 itself exits 0 (Inv pre-states) - it is caught by C04 (and C03)",
+ "C14-C": "first run: exit 2 (Kani failed the harness but the playback was empty, so nothing could be replayed; and the stub ignored the formatter state) -> the pad_integral stub now records width/fill/alignment/flags for a symbolic format specification and c14_q_dec_bvdyn1_l3 was added",
+ "C14-D": "NOT reported as a violation: the change re-implements Bvd hex formatting on top of write!/format machinery, every harness that reaches it (stubbed and end-to-end) exceeds its time budget under the change -> the check exits 2 (inconclusive) in both tiers. The change does not pass silently, but it is not demonstrated either",
  "C01-C": "first run: exit 0 only because the scratch-copy mode skipped engine S at the time; with engine S following the copy, the usize::cadd obligation is refuted and replayed (prim_usize_cadd)",
  "C03-D": "first run: quick tier exit 0 (missed): no Bvd x Bvf multiplication at a length that is not a multiple of 64 -> c03_q_heap_mul_* and c01_q_mul_bvd2_l100_f64x2 / _l70_bvfix added",
  "C09-C": "first run: quick tier exit 0 (missed): no heap Bv longer than the Bvf's capacity -> c09_q_pc_bvdyn1s_f8x1 etc. added",
@@ -81,7 +87,7 @@ for d in sorted(glob.glob(V + "/seeded/staging/C*")):
         # one-line description: first sentence mentioning "Change X" in the notes
         m = re.search(r"(?:^|\n)#+[^\n]*\b%s\b[^\n]*\n(.*?)(?:\n#|\Z)" % x, notes, re.S)
         what = re.sub(r"\s+", " ", (m.group(1) if m else notes)[:400]).strip()
-        also = {"C09-D": ["C07", "C03"], "C20-D": ["C01"], "C03-D": ["C01"]}.get(sid, [])
+        also = {"C09-D": ["C07", "C03"], "C20-D": ["C01"], "C03-D": ["C01"], "C10-C": ["C07"], "C10-D": ["C04"], "C19-D": ["C12"]}.get(sid, [])
         meta = {"id": sid, "breaks": [pid] + also, "files": files,
                 "origin": ("written by an independent sub-agent that was given only the text of property %s and a scratch worktree of /repo (nothing from /verif)" % pid)
                           + ("" if x in "AB" else "; second round: additionally told which two code sites the first round had already used, and to look elsewhere"),
